@@ -714,6 +714,402 @@ theorem validTopK_of_exactSel (c : Content) (hnd : (c.map (·.1)).Nodup) (metric
     rw [hH]
     omega
 
+/-! ### `search` -/
+
+section SearchThms
+variable (E : Engine) (ix : VIndex)
+
+theorem filter_excl_eq (hnd : (ix.content.map (·.1)).Nodup) (ex : List Nat) :
+    ix.content.filter (fun t => !(vecIDsToExclude (vecDocIDMap ix.content) ex).contains t.1) =
+    ix.content.filter (fun t => !ex.contains t.2.1) := by
+  apply List.filter_congr
+  intro t ht
+  have := mem_vecIDsToExclude ix.content hnd ex t ht
+  by_cases h : t.2.1 ∈ ex
+  · simp [h, this.2 h]
+  · have h' : t.1 ∉ vecIDsToExclude (vecDocIDMap ix.content) ex := fun x => h (this.1 x)
+    simp [h, h']
+
+theorem filter_incl_eq (hnd : (ix.content.map (·.1)).Nodup) (el : List Nat) :
+    ix.content.filter (fun t => (el.flatMap (docVecIDs (vecDocIDMap ix.content))).contains t.1) =
+    ix.content.filter (fun t => el.contains t.2.1) := by
+  apply List.filter_congr
+  intro t ht
+  have := mem_docVecIDs_flatMap ix.content hnd el t ht
+  by_cases h : t.2.1 ∈ el
+  · simp only [List.contains_iff_mem, h, this.2 h]
+  · have h' : t.1 ∉ el.flatMap (docVecIDs (vecDocIDMap ix.content)) := fun x => h (this.1 x)
+    simp only [List.contains_iff_mem, h, h']
+
+theorem search_eq_of_dim (q : List Int) (k : Nat) (ex : List Nat) (hq : q.length = ix.dim) :
+    search E ix q k ex = addIDsToPostingsList (vecDocIDMap ix.content)
+      (E.searchExcl q k (vecIDsToExclude (vecDocIDMap ix.content) ex)) := by
+  simp [search, searchCore, hq]
+
+theorem search_wrong_dim (q : List Int) (k : Nat) (ex : List Nat) (hq : q.length ≠ ix.dim) :
+    search E ix q k ex = [] := by
+  simp [search, searchCore, fun h : ix.dim = q.length => hq h.symm]
+
+theorem swf_wrong_dim (numDocs : Nat) (q : List Int) (k : Nat) (ex el : List Nat) (hq : q.length ≠ ix.dim) :
+    searchWithFilter E ix numDocs q k ex el = [] := by
+  simp [searchWithFilter, searchWithFilterCore, fun h : ix.dim = q.length => hq h.symm]
+
+theorem swf_empty (numDocs : Nat) (q : List Int) (k : Nat) (ex : List Nat) :
+    searchWithFilter E ix numDocs q k ex [] = [] := by
+  simp [searchWithFilter, searchWithFilterCore]
+
+theorem swf_full (numDocs : Nat) (q : List Int) (k : Nat) (ex el : List Nat) (hne : el ≠ [])
+    (hfull : el.length = numDocs) : searchWithFilter E ix numDocs q k ex el = search E ix q k ex := by
+  simp only [searchWithFilter, searchWithFilterCore, search, searchCore]
+  split
+  · rfl
+  · simp [hne, hfull]
+
+/-- the `len(vectorIDsToInclude) == 0` shortcut agrees with what a contract-abiding engine
+    answers on an empty include list -/
+theorem swf_incl (hE : EngineOK E ix) (numDocs : Nat) (q : List Int) (k : Nat) (ex el : List Nat)
+    (hq : q.length = ix.dim) (hne : el ≠ []) (hpart : el.length ≠ numDocs) :
+    searchWithFilter E ix numDocs q k ex el = addIDsToPostingsList (vecDocIDMap ix.content)
+      (E.searchIncl q k (el.flatMap (docVecIDs (vecDocIDMap ix.content)))) := by
+  simp only [searchWithFilter, searchWithFilterCore, hq, ne_eq, not_true_eq_false, if_false,
+    List.isEmpty_iff, hne, hpart]
+  split
+  · rename_i h
+    have hc := ((hE q k hq).2 (el.flatMap (docVecIDs (vecDocIDMap ix.content)))).count
+    rw [h] at hc ⊢
+    simp only [List.contains_nil, List.filter_false, List.length_nil, Nat.min_zero,
+      List.length_eq_zero_iff] at hc
+    simp [hc, addIDsToPostingsList]
+  · rfl
+
+/-- everything `search` returns is the code of an entry of a non-excluded document -/
+theorem mem_search (hnd : (ix.content.map (·.1)).Nodup) (hE : EngineOK E ix)
+    (q : List Int) (k : Nat) (ex : List Nat) (h : VHit) (hh : h ∈ search E ix q k ex) :
+    ∃ t ∈ ix.content, t.2.1 ∉ ex ∧ h = hitOf ix.metric q t := by
+  by_cases hq : q.length = ix.dim
+  · rw [search_eq_of_dim E ix q k ex hq] at hh
+    have hs := ((hE q k hq).1 (vecIDsToExclude (vecDocIDMap ix.content) ex)).sound
+    obtain ⟨t, ht, _, ha, rfl⟩ := (mem_addIDs_complete ix.content hnd ix.metric q _ _ hs h).1 hh
+    refine ⟨t, ht, ?_, rfl⟩
+    intro hex
+    have := (mem_vecIDsToExclude ix.content hnd ex t ht).2 hex
+    simp [this] at ha
+  · rw [search_wrong_dim E ix q k ex hq] at hh; cases hh
+
+theorem mem_of_full (l : List Nat) (n : Nat) (hnd : l.Nodup) (hlt : ∀ x ∈ l, x < n)
+    (hlen : l.length = n) (d : Nat) (hd : d < n) : d ∈ l := by
+  apply Classical.byContradiction
+  intro hnot
+  have hsub : l ⊆ (List.range n).erase d := by
+    intro x hx
+    have : x ≠ d := fun h => hnot (h ▸ hx)
+    exact (List.mem_erase_of_ne this).2 (List.mem_range.2 (hlt x hx))
+  have := hnd.length_le_of_subset hsub
+  rw [List.length_erase_of_mem (List.mem_range.2 hd), List.length_range] at this
+  omega
+
+/-- everything `searchWithFilter` returns is the code of an entry of an eligible document
+    (partial filter), resp. of a non-excluded document (full filter) -/
+theorem mem_swf (hnd : (ix.content.map (·.1)).Nodup) (hE : EngineOK E ix) (numDocs : Nat)
+    (q : List Int) (k : Nat) (ex el : List Nat) (h : VHit)
+    (hh : h ∈ searchWithFilter E ix numDocs q k ex el) :
+    ∃ t ∈ ix.content, h = hitOf ix.metric q t ∧
+      (if el.length = numDocs then t.2.1 ∉ ex else t.2.1 ∈ el) := by
+  by_cases hne : el = []
+  · subst hne; rw [swf_empty] at hh; cases hh
+  by_cases hq : q.length = ix.dim
+  · by_cases hfull : el.length = numDocs
+    · rw [swf_full E ix numDocs q k ex el hne hfull] at hh
+      obtain ⟨t, ht, h1, h2⟩ := mem_search E ix hnd hE q k ex h hh
+      exact ⟨t, ht, h2, by simp [hfull, h1]⟩
+    · rw [swf_incl E ix hE numDocs q k ex el hq hne hfull] at hh
+      have hs := ((hE q k hq).2 (el.flatMap (docVecIDs (vecDocIDMap ix.content)))).sound
+      obtain ⟨t, ht, _, ha, rfl⟩ := (mem_addIDs_complete ix.content hnd ix.metric q _ _ hs h).1 hh
+      refine ⟨t, ht, rfl, ?_⟩
+      simp only [hfull, if_false]
+      exact (mem_docVecIDs_flatMap ix.content hnd el t ht).1 (by simpa using ha)
+  · rw [swf_wrong_dim E ix numDocs q k ex el hq] at hh; cases hh
+
+theorem search_topk (hnd : (ix.content.map (·.1)).Nodup) (hE : EngineOK E ix) (opt : Nat)
+    (q : List Int) (k : Nat) (ex : List Nat) (hq : q.length = ix.dim) :
+    validTopK ix.metric k (admissible (ix.toVecIx opt) q (some ex) none) (search E ix q k ex) = true := by
+  rw [search_eq_of_dim E ix q k ex hq, admissible_eq]
+  simp only [Bool.and_true]
+  rw [← filter_excl_eq ix hnd ex]
+  exact validTopK_of_exactSel ix.content hnd ix.metric q k _ _ ((hE q k hq).1 _)
+
+theorem swf_topk_incl (hnd : (ix.content.map (·.1)).Nodup) (hE : EngineOK E ix) (opt numDocs : Nat)
+    (q : List Int) (k : Nat) (ex el : List Nat) (hq : q.length = ix.dim) (hne : el ≠ [])
+    (hpart : el.length ≠ numDocs) :
+    validTopK ix.metric k (admissible (ix.toVecIx opt) q none (some el))
+      (searchWithFilter E ix numDocs q k ex el) = true := by
+  rw [swf_incl E ix hE numDocs q k ex el hq hne hpart, admissible_eq]
+  simp only [Bool.true_and]
+  rw [← filter_incl_eq ix hnd el]
+  exact validTopK_of_exactSel ix.content hnd ix.metric q k _ _ ((hE q k hq).2 _)
+
+/-- caller contract `eligible ∩ ex = ∅`: then the exclusion changes nothing for a filtered search -/
+theorem admissible_contract (opt : Nat) (q : List Int) (ex el : List Nat) (hc : ∀ d ∈ el, d ∉ ex) :
+    admissible (ix.toVecIx opt) q (some ex) (some el) = admissible (ix.toVecIx opt) q none (some el) := by
+  rw [admissible_eq, admissible_eq]
+  congr 1
+  apply List.filter_congr
+  intro t _
+  by_cases h : t.2.1 ∈ el
+  · simp [h, hc _ h]
+  · simp [h]
+
+theorem admissible_some_nil (opt : Nat) (q : List Int) (elig : Option (List Nat)) :
+    admissible (ix.toVecIx opt) q (some []) elig = admissible (ix.toVecIx opt) q none elig := by
+  rw [admissible_eq, admissible_eq]; simp
+
+theorem search_length_le (hE : EngineOK E ix) (q : List Int) (k : Nat) (ex : List Nat) :
+    (search E ix q k ex).length ≤ k := by
+  by_cases hq : q.length = ix.dim
+  · rw [search_eq_of_dim E ix q k ex hq]
+    exact Nat.le_trans (addIDs_length_le _ _) ((hE q k hq).1 _).atMost
+  · rw [search_wrong_dim E ix q k ex hq]; exact Nat.zero_le _
+
+theorem swf_length_le (hE : EngineOK E ix) (numDocs : Nat) (q : List Int) (k : Nat) (ex el : List Nat) :
+    (searchWithFilter E ix numDocs q k ex el).length ≤ k := by
+  by_cases hne : el = []
+  · subst hne; rw [swf_empty]; exact Nat.zero_le _
+  by_cases hq : q.length = ix.dim
+  · by_cases hfull : el.length = numDocs
+    · rw [swf_full E ix numDocs q k ex el hne hfull]; exact search_length_le E ix hE q k ex
+    · rw [swf_incl E ix hE numDocs q k ex el hq hne hfull]
+      exact Nat.le_trans (addIDs_length_le _ _) ((hE q k hq).2 _).atMost
+  · rw [swf_wrong_dim E ix numDocs q k ex el hq]; exact Nat.zero_le _
+
+theorem search_no_vectors (hE : EngineOK E ix) (hc : ix.content = []) (q : List Int) (k : Nat)
+    (ex : List Nat) : search E ix q k ex = [] := by
+  by_cases hq : q.length = ix.dim
+  · rw [search_eq_of_dim E ix q k ex hq]
+    have := ((hE q k hq).1 (vecIDsToExclude (vecDocIDMap ix.content) ex)).count
+    rw [hc] at this
+    simp only [List.filter_nil, List.length_nil, Nat.min_zero, List.length_eq_zero_iff] at this
+    simp [this, addIDsToPostingsList]
+  · exact search_wrong_dim E ix q k ex hq
+
+end SearchThms
+
+/-! ### postings in iteration order -/
+
+theorem mem_insertCode (c : Nat) : ∀ (l : List Nat) (x : Nat), x ∈ insertCode c l ↔ x = c ∨ x ∈ l := by
+  intro l
+  induction l with
+  | nil => intro x; simp [insertCode]
+  | cons a r ih =>
+    intro x
+    simp only [insertCode]
+    split
+    · simp
+    · split
+      · rename_i h; subst h; simp
+      · simp only [List.mem_cons, ih]
+        constructor
+        · rintro (h | h | h) <;> simp [h]
+        · rintro (h | h | h) <;> simp [h]
+
+theorem sorted_insertCode (c : Nat) : ∀ (l : List Nat), l.Pairwise (· < ·) →
+    (insertCode c l).Pairwise (· < ·) := by
+  intro l
+  induction l with
+  | nil => intro _; simp [insertCode]
+  | cons a r ih =>
+    intro h
+    rw [List.pairwise_cons] at h
+    simp only [insertCode]
+    split
+    · rename_i hca
+      rw [List.pairwise_cons]
+      refine ⟨?_, List.pairwise_cons.2 h⟩
+      intro x hx
+      cases hx with
+      | head => exact hca
+      | tail _ hx => exact Nat.lt_trans hca (h.1 x hx)
+    · split
+      · exact List.pairwise_cons.2 h
+      · rw [List.pairwise_cons]
+        refine ⟨?_, ih h.2⟩
+        intro x hx
+        rcases (mem_insertCode c r x).1 hx with rfl | hx
+        · omega
+        · exact h.1 x hx
+
+theorem sorted_postingsCodes (bits : Int → Nat) (hits : List VHit) :
+    (postingsCodes bits hits).Pairwise (· < ·) := by
+  induction hits with
+  | nil => simp [postingsCodes]
+  | cons h t ih => exact sorted_insertCode _ _ ih
+
+theorem mem_postingsCodes (bits : Int → Nat) (hits : List VHit) (x : Nat) :
+    x ∈ postingsCodes bits hits ↔ ∃ h ∈ hits, x = Gen.getVectorCode h.doc (bits h.score) := by
+  induction hits with
+  | nil => simp [postingsCodes]
+  | cons h t ih =>
+    have : postingsCodes bits (h :: t) = insertCode (Gen.getVectorCode h.doc (bits h.score)) (postingsCodes bits t) := rfl
+    rw [this, mem_insertCode, ih]
+    simp
+
+theorem code_zero (t : Nat) (ht : t < 2 ^ 32) : Gen.getVectorCode t 0 = t * 2 ^ 32 := by
+  simp only [Gen.getVectorCode, Nat.or_zero, Nat.shiftLeft_eq, Gen.u64]
+  apply Nat.mod_eq_of_lt
+  omega
+
+theorem lt_code_zero_iff (c t : Nat) (ht : t < 2 ^ 32) :
+    c < Gen.getVectorCode t 0 ↔ c >>> 32 < t := by
+  rw [code_zero t ht, Nat.shiftRight_eq_div_pow, Nat.div_lt_iff_lt_mul (by decide)]
+
+theorem nextAtOrAfter_spec (rest : List Nat) (target : Nat) (ht : target < 2 ^ 32) :
+    (∀ c r, nextAtOrAfter rest target = (some c, r) →
+        ∃ pre, rest = pre ++ c :: r ∧ (∀ x ∈ pre, x >>> 32 < target) ∧ target ≤ c >>> 32) ∧
+    (∀ r, nextAtOrAfter rest target = (none, r) → ∀ x ∈ rest, x >>> 32 < target) := by
+  have hsplit := @List.takeWhile_append_dropWhile _ (fun c => decide (c < Gen.getVectorCode target 0)) rest
+  have hpre : ∀ x ∈ rest.takeWhile (fun c => decide (c < Gen.getVectorCode target 0)), x >>> 32 < target := by
+    intro x hx
+    have := List.mem_takeWhile_imp hx
+    exact (lt_code_zero_iff x target ht).1 (by simpa using this)
+  constructor
+  · intro c r h
+    simp only [nextAtOrAfter] at h
+    split at h
+    · cases h
+    · rename_i c' r' hd
+      simp only [Prod.mk.injEq, Option.some.injEq] at h
+      obtain ⟨rfl, rfl⟩ := h
+      refine ⟨_, by rw [← hd]; exact hsplit.symm, hpre, ?_⟩
+      have := List.head_dropWhile_not (fun c => decide (c < Gen.getVectorCode target 0)) rest
+        (by rw [hd]; simp)
+      simp only [hd, List.head_cons, decide_eq_true_eq] at this
+      have h2 := (lt_code_zero_iff c' target ht)
+      omega
+  · intro r h x hx
+    simp only [nextAtOrAfter] at h
+    split at h
+    · rename_i hd
+      rw [hd, List.append_nil] at hsplit
+      rw [← hsplit] at hx
+      exact hpre x hx
+    · cases h
+
+/-- `Next()` = `nextAtOrAfter(0)` walks the codes in order -/
+theorem nextAtOrAfter_zero (rest : List Nat) : nextAtOrAfter rest 0 = (rest.head?, rest.tail) := by
+  cases rest with
+  | nil => simp [nextAtOrAfter]
+  | cons a r =>
+    have : Gen.getVectorCode 0 0 = 0 := by decide
+    simp [nextAtOrAfter, this]
+
+/-! ### the reference engine satisfies the contract -/
+
+theorem vbetter_asymm (metric : Nat) (a b : Int) (h : vbetter metric a b = true) :
+    vbetter metric b a = false := by
+  unfold vbetter at *
+  split at h <;> simp_all <;> omega
+
+theorem vbetter_trans (metric : Nat) (a b c : Int) (h1 : vbetter metric a b = true)
+    (h2 : vbetter metric b c = true) : vbetter metric a c = true := by
+  unfold vbetter at *
+  split at h1 <;> simp_all <;> omega
+
+theorem insertRes_perm (metric : Nat) (p : Nat × Int) : ∀ l, (insertRes metric p l).Perm (p :: l) := by
+  intro l
+  induction l with
+  | nil => simp [insertRes]
+  | cons a r ih =>
+    simp only [insertRes]
+    split
+    · exact List.Perm.refl _
+    · exact ((List.Perm.cons a ih).trans (List.Perm.swap p a r))
+
+theorem sortRes_perm (metric : Nat) : ∀ l, (sortRes metric l).Perm l := by
+  intro l
+  induction l with
+  | nil => simp [sortRes]
+  | cons a r ih =>
+    have : sortRes metric (a :: r) = insertRes metric a (sortRes metric r) := rfl
+    rw [this]
+    exact (insertRes_perm metric a _).trans (List.Perm.cons a ih)
+
+theorem insertRes_sorted (metric : Nat) (p : Nat × Int) : ∀ l,
+    l.Pairwise (fun a b => vbetter metric b.2 a.2 = false) →
+    (insertRes metric p l).Pairwise (fun a b => vbetter metric b.2 a.2 = false) := by
+  intro l
+  induction l with
+  | nil => intro _; simp [insertRes]
+  | cons a r ih =>
+    intro h
+    rw [List.pairwise_cons] at h
+    simp only [insertRes]
+    split
+    · rename_i hpa
+      rw [List.pairwise_cons]
+      refine ⟨?_, List.pairwise_cons.2 h⟩
+      intro x hx
+      cases hx with
+      | head => exact vbetter_asymm _ _ _ hpa
+      | tail _ hx =>
+        cases hxp : vbetter metric x.2 p.2 with
+        | false => rfl
+        | true =>
+          have := vbetter_trans metric _ _ _ hxp hpa
+          rw [h.1 x hx] at this; cases this
+    · rename_i hpa
+      rw [List.pairwise_cons]
+      refine ⟨?_, ih h.2⟩
+      intro x hx
+      rcases List.mem_cons.1 ((insertRes_perm metric p r).mem_iff.1 hx) with rfl | hx
+      · simpa using hpa
+      · exact h.1 x hx
+
+theorem sortRes_sorted (metric : Nat) : ∀ l,
+    (sortRes metric l).Pairwise (fun a b => vbetter metric b.2 a.2 = false) := by
+  intro l
+  induction l with
+  | nil => simp [sortRes]
+  | cons a r ih => exact insertRes_sorted metric a _ ih
+
+theorem refSelect_exact (ix : VIndex) (hnd : (ix.content.map (·.1)).Nodup) (q : List Int) (k : Nat)
+    (adm : Nat → Bool) : ExactSel ix.content ix.metric q k adm (refSelect ix q k adm) := by
+  let B := (ix.content.filter (fun t => adm t.1)).map (fun t => (t.1, vscore ix.metric q t.2.2))
+  let L := sortRes ix.metric B
+  have hperm : L.Perm B := sortRes_perm _ _
+  have hsorted : L.Pairwise (fun a b => vbetter ix.metric b.2 a.2 = false) := sortRes_sorted _ _
+  have hBids : B.map (·.1) = (ix.content.filter (fun t => adm t.1)).map (·.1) := by
+    simp [B, List.map_map, Function.comp_def]
+  have hres : refSelect ix q k adm = L.take k := rfl
+  have hmemB : ∀ p, p ∈ B ↔ ∃ t ∈ ix.content, adm t.1 = true ∧ p = (t.1, vscore ix.metric q t.2.2) := by
+    intro p
+    simp only [B, List.mem_map, List.mem_filter]
+    constructor
+    · rintro ⟨t, ⟨h1, h2⟩, rfl⟩; exact ⟨t, h1, h2, rfl⟩
+    · rintro ⟨t, h1, h2, rfl⟩; exact ⟨t, ⟨h1, h2⟩, rfl⟩
+  constructor
+  · intro p hp
+    rw [hres] at hp
+    obtain ⟨t, ht, ha, rfl⟩ := (hmemB p).1 (hperm.mem_iff.1 (List.mem_of_mem_take hp))
+    exact ⟨t.2.1, t.2.2, ht, ha, rfl⟩
+  · rw [hres, ← List.map_take]
+    apply List.Nodup.sublist (List.take_sublist _ _)
+    apply (hperm.map _).symm.nodup
+    rw [hBids]
+    exact hnd.sublist ((List.filter_sublist).map _)
+  · rw [hres, List.length_take]; exact Nat.min_le_left _ _
+  · intro p hp t ht ha hout
+    rw [hres] at hp hout
+    have hin : (t.1, vscore ix.metric q t.2.2) ∈ L := hperm.mem_iff.2 ((hmemB _).2 ⟨t, ht, ha, rfl⟩)
+    rw [← List.take_append_drop k L, List.mem_append] at hin
+    rcases hin with hin | hin
+    · exact absurd (List.mem_map.2 ⟨_, hin, rfl⟩) hout
+    · rw [← List.take_append_drop k L, List.pairwise_append] at hsorted
+      exact hsorted.2.2 p hp _ hin
+  · rw [hres, List.length_take, hperm.length_eq]
+    simp [B]
+
+theorem refEngine_ok (ix : VIndex) (hnd : (ix.content.map (·.1)).Nodup) : EngineOK (refEngine ix) ix :=
+  fun q k _ => ⟨fun _ => refSelect_exact ix hnd q k _, fun _ => refSelect_exact ix hnd q k _⟩
+
 end Search
 
 end Zap.VecL
